@@ -170,6 +170,7 @@ AdjSum(Ls, vs, n) ==
 (*   I.h    smooth functional on the domain (grad used)                     *)
 (*   I.tau, I.sig (sequence), I.th   step sizes / relaxation                *)
 (*   I.b    right-hand sides (sequence of vectors)                          *)
+(*   I.pw   componentwise power of the forward maps (1 = linear)            *)
 (* ======================================================================= *)
 L1of(I) == I.Ls[1]
 G1of(I) == I.gs[1]
@@ -247,15 +248,26 @@ PGStep(I, s) ==
   LET p == Prox(I.f, I.tau, RSub(s.x, RScal(I.tau, PGGrad(I, s.x))))
   IN  [x |-> RLin(SSub(QOne, I.th), s.x, I.th, p)]
 
-\* --- Landweber:  x+ = x - omega A^T (A x - b)
+\* --- forward operators of the linear-inverse-problem solvers:  A_j(x) = L_j (x .^ pw)  (componentwise
+\*     power, pw = 1: linear).  Derivative at x applied adjointly:  A_j'(x)^* r = pw x.^(pw-1) (.) L_j^T r.
+\*     The documented iterations linearise at the CURRENT iterate.
+RECURSIVE SPowN(_, _)
+SPowN(p, k) == IF k = 0 THEN QOne ELSE SMul(p, SPowN(p, k - 1))
+RPow(u, k) == [i \in 1..Len(u) |-> SPowN(u[i], k)]
+Fwd(I, j, x) == IF I.pw = 1 THEN MatVec(I.Ls[j], x) ELSE MatVec(I.Ls[j], RPow(x, I.pw))
+AdjDer(I, j, x, r) ==
+  IF I.pw = 1 THEN MatTVec(I.Ls[j], r)
+  ELSE RMul(RScal(<<I.pw, 1>>, RPow(x, I.pw - 1)), MatTVec(I.Ls[j], r))
+
+\* --- Landweber:  x+ = x - omega A'(x)^* (A(x) - b)
 LandweberStep(I, s) ==
-  [x |-> RSub(s.x, RScal(I.tau, MatTVec(L1of(I), RSub(MatVec(L1of(I), s.x), I.b[1]))))]
+  [x |-> RSub(s.x, RScal(I.tau, AdjDer(I, 1, s.x, RSub(Fwd(I, 1, s.x), I.b[1]))))]
 
 \* --- Kaczmarz, fixed order, one sweep over the blocks
 RECURSIVE KaczFrom(_, _, _)
 KaczFrom(I, x, i) ==
   IF i > Len(I.Ls) THEN x
-  ELSE KaczFrom(I, RSub(x, RScal(I.sig[i], MatTVec(I.Ls[i], RSub(MatVec(I.Ls[i], x), I.b[i])))), i + 1)
+  ELSE KaczFrom(I, RSub(x, RScal(I.sig[i], AdjDer(I, i, x, RSub(Fwd(I, i, x), I.b[i])))), i + 1)
 KaczmarzStep(I, s) == [x |-> KaczFrom(I, s.x, 1)]
 
 \* --- conjugate gradient for A x = b, A symmetric positive definite:  state [x, r, p]
@@ -290,9 +302,9 @@ MLEMStep(I, s) ==
   IN  [x |-> RDivE(RMul(s.x, MatTVec(A, RDivE(I.b[1], MatVec(A, s.x)))),
                    MatTVec(A, ROne(Len(A))))]
 
-\* --- steepest descent for F(x) = |A x - b|^2
-LSQVal(I, x) == RNorm2(RSub(MatVec(L1of(I), x), I.b[1]))
-LSQGrad(I, x) == RScal(Two, MatTVec(L1of(I), RSub(MatVec(L1of(I), x), I.b[1])))
+\* --- steepest descent for F(x) = |A(x) - b|^2
+LSQVal(I, x) == RNorm2(RSub(Fwd(I, 1, x), I.b[1]))
+LSQGrad(I, x) == RScal(Two, AdjDer(I, 1, x, RSub(Fwd(I, 1, x), I.b[1])))
 SDStep(I, s) == [x |-> RSub(s.x, RScal(I.tau, LSQGrad(I, s.x)))]
 \* Armijo backtracking: alpha = 1, 1/2, 1/4 ... until F(x - a g) <= F(x) - delta a |g|^2
 ArmijoOk(I, x, g, a) ==
